@@ -6,6 +6,7 @@ import (
 	"fmt"
 	"golang.org/x/tools/go/ssa"
 	"os"
+	"path/filepath"
 	"runtime/debug"
 	"sort"
 )
@@ -112,7 +113,11 @@ func main() {
 		}
 		sort.Strings(ks)
 		for _, k := range ks {
-			fmt.Println(k)
+			if sh := declShapes[k]; sh != "" {
+				fmt.Println(k + "\t" + sh)
+			} else {
+				fmt.Println(k)
+			}
 		}
 	case "dump":
 		// debugging aid: print the SSA of a function
@@ -132,7 +137,10 @@ func main() {
 			}
 		}
 	case "checkall":
-		// development aid: one load, every property's rules (linux/amd64, quick)
+		// development aid: one load, every property's rules (linux/amd64, quick); never writes the real evidence
+		if os.Getenv("VERIF_OUT") == "" {
+			outDir = filepath.Join(os.TempDir(), "vt-checkall")
+		}
 		prog, err := LoadProgram("linux", "amd64", false)
 		if err != nil {
 			fmt.Printf("VIOLATION property=all replay=- LOAD-FAILED: %v\n", err)
